@@ -92,6 +92,7 @@ type RunSpec struct {
 	Clients   [][]Op   `json:"clients"`
 
 	// sched only
+	GoMaxProcs int    `json:"gomaxprocs,omitempty"` // of the worker process that found it (sync.Pool and the Go scheduler depend on it)
 	Deep      bool    `json:"deep,omitempty"` // built against the instrumented copy (scheduling points inside goldmark)
 	Fresh     bool    `json:"fresh_instance,omitempty"`
 	Cold      bool    `json:"cold_start,omitempty"`
